@@ -551,6 +551,8 @@ def finish_recipe(record, run0, known):
                 run0.idx = k
                 if x['c'] == 'bake' and (run0.near_capacity_fill or run.near_capacity_fill):
                     run0.stats['bake_decision_at_capacity_unjudged'] += 1    # a fill_to step sits in the rounding band of a capacity
+                elif x['c'] == 'bake' and (min(run0.min_margin_rel, run.min_margin_rel) < F(5, 1000) or not floors_ok(pre, run0) or not floors_ok(pre, run)):
+                    run0.stats['bake_decision_near_boundary_or_floor_unjudged'] += 1
                 else:
                     run0.V('C18', 'replicas_disagree_decision', ('recipe.' + x['c'], 'decision'), f"call {k} ({x['c']}): shipped config -> {x['out']}, {tag} -> {y['out']}")
                 diverged = True
@@ -612,6 +614,18 @@ def track_tol(cmpr, run0, x, nsteps):
         ta, _ = cmpr.tol_amt(ms, nsteps)
         worst = max(worst, ta * k)
     return tracking_step(x[3]) + float(worst / mult) * 4
+
+
+def floors_ok(cmpr, run):
+    """No amount of any snapshot of the eager reference sits within 1e4 rounding steps (coarsest replica) of zero."""
+    W = run.W
+    for sn in run.snap:
+        for mo in sn.values():
+            vs = [mo] if isinstance(mo, M.MVessel) else [mo.well(c) for c in mo.all_cells()]
+            for v in vs:
+                if not cmpr.state_floor_ok(W, ('container', v.contents, None, None)):
+                    return False
+    return True
 
 
 def tracking_step(unit):
